@@ -10,6 +10,7 @@ pub fn tweak_str(t: Tweak) -> String {
         Tweak::None => "none".into(),
         Tweak::Reverse => "reverse".into(),
         Tweak::Rotate(p) => format!("rotate:{}", p),
+        Tweak::Zigzag { index, reverse } => format!("zigzag:{}:{}", index, if reverse { "rev" } else { "fwd" }),
     }
 }
 
@@ -17,6 +18,16 @@ fn parse_tweak(s: &str) -> Result<Tweak, String> {
     match s {
         "none" => Ok(Tweak::None),
         "reverse" => Ok(Tweak::Reverse),
+        o if o.starts_with("zigzag:") => {
+            let parts: Vec<&str> = o.split(':').collect();
+            if parts.len() != 3 {
+                return Err(format!("bad tweak {:?}", o));
+            }
+            Ok(Tweak::Zigzag {
+                index: parts[1].parse().map_err(|_| format!("bad tweak {:?}", o))?,
+                reverse: parts[2] == "rev",
+            })
+        }
         o => match o.strip_prefix("rotate:") {
             Some(n) => n.parse().map(Tweak::Rotate).map_err(|_| format!("bad tweak {:?}", o)),
             None => Err(format!("bad tweak {:?}", o)),
